@@ -202,3 +202,25 @@ Proof.
 Qed.
 
 End WordLevelGen.
+
+(** the statements pinned as C01_chunk_multipliers_keep_length / C01_gen_multiply_sqr *)
+Theorem chunk_multipliers_keep_length : forall w,
+  (forall la lb, keeps_len (simple_chunk_fn w) la lb) /\
+  (forall rec_same : mulfn, (forall m, keeps_len rec_same m m) -> forall n, (2 <= n)%nat -> keeps_len (karatsuba_same_len w rec_same) n n) /\
+  (forall div6 shr1 (rec_same : mulfn) c s a b r k, toom3g_same_len w div6 shr1 rec_same c s a b = Ok (r, k) -> length r = length c).
+Proof.
+  intros w. split; [|split].
+  - exact (simple_chunk_keeps_len w).
+  - exact (karatsuba_keeps_len w).
+  - exact (toom3g_keeps_len w).
+Qed.
+
+Theorem gen_multiply_sqr : forall w div2by1,
+  (forall a b, mul_multiply_gen (gen_rec_same w div2by1) (gen_rec_gen w div2by1) (repeat 0 (length a + length b)) a b
+               = multiply_w w div2by1 THRESHOLD_SIMPLE_gen THRESHOLD_KARATSUBA_gen CHUNK_LEN_gen a b) /\
+  (forall a, ksqr_bodies_gen w div2by1 a = sqr_w w div2by1 THRESHOLD_SIMPLE_gen THRESHOLD_KARATSUBA_gen MAX_LEN_SIMPLE_gen a).
+Proof.
+  intros w d. split.
+  - exact (multiply_bodies_gen_eq w d).
+  - exact (ksqr_bodies_gen_eq w d).
+Qed.
